@@ -70,11 +70,14 @@ Theorem loop_exits_on_cancel : forall decode hmac udw cfg c0 v0 r0 t1 i t2,
 Proof. exact loop_exits_on_cancel_l. Qed.
 
 (* The repaired read-before-watch order: whenever the second half of a pass
-   adds a watch that was not there, a token is left in the recheck channel
+   adds a watch that was not there (other than refreshing the watch of the
+   directory it already believes watched), a token is left in the recheck channel
    (the loop also starts with one: init_state), and a waiting token is received
    like any input and makes the loop read the file once more - now with the
    watch in place. *)
 Theorem recheck_after_new_watch : forall cfg f st p,
+  mem (dir (st_resolved st)) (st_watches st) = true ->     (* the believed target directory is watched, *)
+  path_eqb (dir (st_resolved st)) cfg = false ->           (* as the watch-set invariant says *)
   mem p (st_watches st) = false ->
   mem p (st_watches (cont_phase update_dir_watches cfg f st)) = true ->
   st_recheck (cont_phase update_dir_watches cfg f st) = true.
